@@ -129,7 +129,8 @@ func (g *G) backend(c *Config, allowed []string, faulty bool) {
 	c.BoltMmap = c.Backend == "bolt" && g.chance(0.5)
 }
 
-var bucketNames = []string{"bkt-aaa", "bkt-bbb", "bkt-ccc"}
+// the third name extends the first as a string (not as a path)
+var bucketNames = []string{"bkt-aaa", "bkt-bbb", "bkt-aaa2"}
 
 // key universes: prefix-free as paths so that they are inside every
 // backend's key domain.
@@ -333,11 +334,14 @@ func (g *G) genC02(p *Plan) {
 	}
 	c.AutoBucket = c.Backend != "singlefs" && g.chance(0.3)
 	c.Frag = g.frag()
-	nb := g.n(1, 2)
+	nb := g.n(1, 3)
 	if c.Backend == "singlefs" {
 		nb = 1
 	}
 	universe := bucketNames[:nb]
+	if nb == 2 && g.chance(0.5) {
+		universe = []string{bucketNames[0], bucketNames[2]}
+	}
 	c.Buckets = universe[:g.n(1, nb)]
 	keys := append([]string{}, plainKeys[g.rng.Intn(len(plainKeys))]...)
 	keys = keys[:g.n(1, len(keys)):len(keys)]
